@@ -31,10 +31,9 @@
       pass starts (it is established by MainTransformer._pair_property_accessors, which is not
       modelled: on the real output the clause is judged by `girWellFormed`).
       C05_accessors_cleared needs no hypothesis.
-      The entry condition does NOT always hold on the unchanged code
-      (`C05_accessors_entry_counterexample`, pending finding: properties `is-active` / `active`);
-      likewise `C05_invoker_counterexample` ((virtual) on a constructor / static function).
-      Both defects are in MainTransformer, outside the pass model.
+      (Two findings against that entry condition and against the invoker clause, both in
+      MainTransformer, were repaired in /repo — 9e81059, 9b727dd; their output shapes are kept as
+      `girWellFormed` regression examples.)
     * Other AST invariants assumed from the earlier passes: none in the theorems (the model takes the
       looked-up target kind of a reference into an included namespace as data: `Ty.ext`).
 -/
@@ -339,7 +338,7 @@ theorem C05_old_order_witness_gir :
     ∧ (validate aliasWitness).map (fun r => GirWF.girWellFormed (emitAliasWitness r.2.1.tf)) = some true := by
   decide +kernel
 
-/-! ### what the unchanged code still gets wrong (cross-reference clauses, MainTransformer) -/
+/-! ### cross-reference clauses decided in MainTransformer: regression shapes of repaired findings -/
 
 def boolRet : GirWF.Elem :=
   el "return-value" [("transfer-ownership", "none")] [el "type" [("name", "gboolean")] []]
@@ -363,14 +362,14 @@ def emitTwoActive (isActiveClaims : String) : GirWF.Env :=
             [el "type" [("name", "gboolean")] []]]]]
     others := [] }
 
-/-- Known finding `gen:getter-mismatch:getter-claimed-for-another-property` (replayed on the real
-    pipeline: corpus `property-is-active-before-active`): `_pair_property_accessors` leaves
-    `is_active` with glib:get-property="active" although it is the getter of `is-active` — the
-    accessor clause of the property fails on that output; with "is-active" it would hold.  This
-    is the entry condition `AccAgree` of `C05_accessors`, which the pass cannot repair. -/
-theorem C05_accessors_entry_counterexample :
-    GirWF.girWellFormed (emitTwoActive "active") = false
-    ∧ GirWF.girWellFormed (emitTwoActive "is-active") = true := by
+/-- Regression shape of the finding repaired by /repo commit 9e81059 (corpus
+    `property-is-active-before-active`): `_pair_property_accessors` used to leave `is_active`
+    with glib:get-property="active" although it is the getter of `is-active`; `girWellFormed`
+    rejects that output and accepts what the scanner emits now (`is_active` claims `is-active`).
+    This agreement is the entry condition `AccAgree` of `C05_accessors`. -/
+example :
+    GirWF.girWellFormed (emitTwoActive "is-active") = true
+    ∧ GirWF.girWellFormed (emitTwoActive "active") = false := by
   decide +kernel
 
 /-- the class emitted for `foo_o_new: (virtual v0)`; `tag` is the element `new` is written as -/
@@ -382,14 +381,15 @@ def emitInvoker (tag : String) : GirWF.Env :=
           el "virtual-method" [("name", "v0"), ("invoker", "new")] [voidRet, selfParam]]]]
     others := [] }
 
-/-- Known finding `gen:invoker-not-a-method:virtual-annotation-on-constructor-or-function`
-    (corpus `virtual-annotation-on-constructor-and-static-function`): the invoker of a virtual
-    method is written as a `<constructor>`; "a virtual method's invoker is a method of the same
-    type" fails, and would hold were it a `<method>`. -/
-theorem C05_invoker_counterexample :
-    GirWF.girWellFormed (emitInvoker "constructor") = false
-    ∧ GirWF.girWellFormed (emitInvoker "function") = false
-    ∧ GirWF.girWellFormed (emitInvoker "method") = true := by
+/-- Regression shape of the finding repaired by /repo commit 9b727dd (corpus
+    `virtual-annotation-on-constructor-and-static-function`): a (virtual) annotation on a
+    constructor or static function no longer makes it an invoker; "a virtual method's invoker is
+    a method of the same type" holds for an invoker written as `<method>` and is rejected for a
+    `<constructor>` / `<function>`. -/
+example :
+    GirWF.girWellFormed (emitInvoker "method") = true
+    ∧ GirWF.girWellFormed (emitInvoker "constructor") = false
+    ∧ GirWF.girWellFormed (emitInvoker "function") = false := by
   decide +kernel
 
 /-! ### accessor names (`_introspectable_property_analysis`) -/
